@@ -449,7 +449,10 @@ class CheckRun:
             "axioms reported by Print Assumptions: " + (", ".join(self.axioms) if self.axioms else "none (closed under the global context)"),
             "correspondence harness /verif/harness (generators, stubs, float->rational conversion, Coq literal printer)",
             "hand-written Gallina model of the anchored lerax code (tied by the correspondence check, not by translation)" ,
-        ] + self.assumptions
+        ] + (["kernel translator harness/translate/kernel.py + kernels.py (symbolic execution of the lerax source into coq/gen/%s/GenK_%s.v, trusted as a printer; "
+              "its specification of what each parameter stands for is a modelling decision); link theorems coq/link/%s_link.v re-checked this run: %s"
+              % (self.pid, self.pid, self.pid, ", ".join(self.extra_cov["kernel_link"].get("theorems", [])))]
+             if self.extra_cov.get("kernel_link", {}).get("checked") else []) + self.assumptions
         cov = {
             "obligations": self.obligations,
             "discharged": self.discharged,
